@@ -12,7 +12,7 @@
    the counter ([fits m ops]: snext m + length ops < 2^63 - 1).  The id allocation across
    the counter's wrap is covered by c06_ids_unique_wrap. *)
 From Coq Require Import ZArith List Bool.
-From FV Require Import Generated.Consts C05.Model C05.Spec C05.Machine C06.Proofs C06.Others.
+From FV Require Import Generated.Consts C05.Model C05.Spec C05.Machine C05.Vid C05.VidProofs C06.Proofs C06.Others.
 Import ListNotations.
 Open Scope Z_scope.
 
@@ -122,6 +122,19 @@ Theorem c06_reachable_from_fresh : forall ops,
 Proof. exact reachable_fresh. Qed.
 Print Assumptions c06_reachable_from_fresh.
 
+(* The visible-id layer (C05/Vid.v: the ids the application sees are allocated by nextID()
+   with wrap and in-use probing on top of node identities that are never reused — the
+   code's `refer[id] == node` pointer test) is transparent on every history that does not
+   exhaust the id counter: the machine under the layer, which is what the check runs
+   against the code, gives exactly the outputs of the machine the theorems speak about. *)
+Theorem c06_visible_ids_transparent : forall ops,
+  short ops ->
+  (forall cur tt, 0 <= cur ->
+     snd (vrun step srefer (vinit (init_wheel cur tt)) ops) = snd (run (init_wheel cur tt) ops)) /\
+  (forall now, snd (vrun step srefer (vinit (init_heap now)) ops) = snd (run (init_heap now) ops)).
+Proof. exact vrun_both. Qed.
+Print Assumptions c06_visible_ids_transparent.
+
 (* "no such ordering stalls the scheduler": whenever a request is pending the worker's arm
    for it is enabled and consumes it, the ticker arm is always enabled; no step waits for
    another (the API calls' critical sections are single steps: the request is sent after
@@ -159,6 +172,17 @@ Example c06_example_others :
 Proof.
   apply c06_others_undisturbed; [apply (reachable_from_heap 0 [Start 2; Start 3]); vm_compute; reflexivity|vm_compute; reflexivity|reflexivity].
 Qed.
+
+(* id reuse after a wrap: timer 1 is cancelled with its node still linked, the counter is set
+   back so that the next start gets id 1 again; the old node is dropped silently at its
+   expiry (tick 3), the new owner of id 1 fires at its own due time (tick 9) *)
+Example c06_example_id_reuse :
+  let w0 := vinit (init_wheel 1000 0) in
+  let '(w1, o1) := vrun step srefer w0 [Start 3; HandleAdd; Cancel 1] in
+  let '(w2, o2) := vrun step srefer (vset_next w1 0) [Start 9; HandleAdd; IsSched 1; Pass 3; Tick; IsSched 1; Pass 6; Tick; Size] in
+  o1 = [OId false 1; OFlag true; OBool false true] /\
+  o2 = [OId false 1; OFlag true; OFlag true; ONone; ODeliv []; OFlag true; ONone; ODeliv [(1, 9)]; ONum 0].
+Proof. vm_compute. split; reflexivity. Qed.
 
 Example c06_example_reachable :
   reachable (fst (run (init_wheel 1000 0) [Start 1; HandleAdd])) /\
